@@ -170,8 +170,8 @@ func gen(g *vh.Gen) {
 	// total sizes just below and at powers of two: the message as DATA carried it is shorter than the stored source by
 	// the trace headers (about 150 bytes), so a size hint taken from one and a buffer filled with the other disagree
 	// only in this band
-	for _, bnd := range []int{4096, 8192, 16384, 32768, 65536} {
-		for k := 0; k < g.N(5, 60); k++ {
+	for _, bnd := range []int{4096, 8192, 16384, 32768, 65536, 131072, 1048576, 4194304} {
+		for k := 0; k < g.N(5, 60) && (bnd <= 65536 || k < g.N(1, 6)); k++ {
 			total := bnd - g.Intn(260) + g.Intn(3)
 			ls := []string{"Subject: size " + strconv.Itoa(total), ""}
 			cur := len(ls[0]) + 2
